@@ -534,7 +534,7 @@ pub fn check(ctx: &Ctx) -> i32 {
     }
     // run-time misuse at 5 random points of otherwise valid runs
     let mut r = Rng::new(ctx.seed ^ 0xC16);
-    for i in 0..ctx.n(400, 12_000) {
+    for i in 0..ctx.n(3000, 60_000) {
         let mut rr = r.fork(i as u64);
         let mut s = gen_c01_space(&mut rr, 250);
         s.peers = rr.pick(&[vec![vec![0], vec![1]], vec![vec![0, 1], vec![2]], vec![vec![0], vec![1], vec![2]]]);
@@ -569,13 +569,27 @@ pub fn check(ctx: &Ctx) -> i32 {
             };
             s.actions.push(Action { node, when, act: Act::Misuse(m) });
         }
+        // misuse while the session is still synchronising
+        if rr.chance(0.5) {
+            for _ in 0..2 {
+                let when = Trigger::AtMs(rr.range(0, 400));
+                let m = match rr.below(5) {
+                    0 => Misuse::InputForHandle(rr.pick(&[remote_h, np + 5, 99])),
+                    1 => Misuse::AdvanceMissingInput,
+                    2 => Misuse::DisconnectHandle(rr.pick(&[local_h, np + 7, 99])),
+                    3 => Misuse::SetDelayHandle(rr.pick(&[remote_h, 99]), rr.below(5) as usize),
+                    _ => Misuse::StatsHandle(rr.pick(&[local_h, np + 7, 99])),
+                };
+                s.actions.push(Action { node, when, act: Act::Misuse(m) });
+            }
+        }
         if disconnect_done {
             // C01 oracle does not apply once a player is dropped; keep the differential only
             s.notify_ms = 20_000;
         }
         jobs.push(Job::Misuse(Box::new(s), format!("misuse-{i}")));
     }
-    for k in 0..ctx.n(60, 2000) as u64 {
+    for k in 0..ctx.n(200, 5000) as u64 {
         jobs.push(Job::SyncTestMisuse(ctx.seed.wrapping_mul(7919).wrapping_add(k)));
     }
     let jobs: Vec<Job> = jobs.into_iter().filter(|j| ctx.only_case.as_ref().is_none_or(|o| *o == j.id())).collect();
@@ -585,7 +599,7 @@ pub fn check(ctx: &Ctx) -> i32 {
     extra.insert("enumerated_subspace".into(), json!({"menu": format!("{:?}", m), "max_length": maxlen, "sequences": total, "start_methods": 3, "exhaustive": true}));
     let meta = Meta {
         level: "exploration",
-        rule: format!("bounded-exhaustive: all {total} sequences of <= {maxlen} builder calls from a menu of {} calls over small value domains, each followed by each of the three start_* methods, compared with a reference validity predicate written from the documentation (which builder call fails, whether start succeeds, error kind InvalidRequest); every accepted session is polled/advanced (200/40/12 frames depending on sequence length) on a simulated socket without panicking. Run-time misuse: 5 scripted calls (input for a remote/spectator/unknown handle, advance_frame with inputs missing, disconnect of a local/unknown/already disconnected player, delay change and stats for the wrong player type or unknown handle) at random points of random valid runs must return the documented error, and the run must be identical (request lists, events per address, errors, states of every node) to the twin run in which the failing calls are omitted (a bare poll_remote_clients() replacing a failing advance_frame); the same for SyncTestSession. Non-trivial: enumeration jobs; misuse runs in which at least one call was rejected. Distinct: job.", m.len()),
+        rule: format!("bounded-exhaustive: all {total} sequences of <= {maxlen} builder calls from a menu of {} calls over small value domains, each followed by each of the three start_* methods, compared with a reference validity predicate written from the documentation (which builder call fails, whether start succeeds, error kind InvalidRequest); every accepted session is polled/advanced (200/40/12 frames depending on sequence length) on a simulated socket without panicking. Run-time misuse: 5 scripted calls (input for a remote/spectator/unknown handle, advance_frame with inputs missing, disconnect of a local/unknown/already disconnected player, delay change and stats for the wrong player type or unknown handle) at random points of random valid runs (also while the session is still synchronising) must return the documented error, and the run must be identical (request lists, events per address, errors, states of every node) to the twin run in which the failing calls are omitted (a bare poll_remote_clients() replacing a failing advance_frame); the same for SyncTestSession. Non-trivial: enumeration jobs; misuse runs in which at least one call was rejected. Distinct: job.", m.len()),
         assumptions: vec!["the reference predicate encodes the rustdoc of SessionBuilder and docs/sessions.md".into(), "input delay and prediction window within 0..=16".into(), "held on the executions produced, not verified".into()],
         floor_nontrivial: if ctx.quick() { 200 } else { 3000 },
         exhaustive: None,
